@@ -34,7 +34,7 @@ Fixpoint norm (p : str) (x : xt) : xt :=
   | XArray e a b => XArray (norm p e) a b
   | XTuple es => XTuple (map (norm p) es)
   | XStruct ms opt _ =>
-      XStruct (map (fun q => (fst q, norm p (snd q))) ms) (if set_neq opt (map fst ms) then opt else map fst ms) true
+      XStruct (map (fun q => (fst q, norm p (snd q))) ms) opt true
   | _ => x
   end.
 
@@ -80,8 +80,7 @@ Proof.
       (fix go (l : list (str * xt)) : res (list (str * pyval)) :=
          match l with [] => Ok [] | (n, e) :: r => xt_export e >>= fun j => go r >>= fun js => Ok ((n, j) :: js) end) l).
     { induction 1 as [|[n e] l He Hl IHl]; [reflexivity|]. cbn [map fst snd] in *. rewrite He, IHl. reflexivity. }
-    rewrite (E ms H). rewrite map_map. cbn [fst]. change (map (fun x : str * xt => fst x) ms) with (map fst ms).
-    destruct (set_neq opt (map fst ms)) eqn:C; [rewrite C; reflexivity|]. rewrite set_neq_refl. reflexivity.
+    rewrite (E ms H). rewrite map_map. cbn [fst]. reflexivity.
 Qed.
 
 (* ------------------------------------------------------------------ float equality against a finite constant *)
@@ -120,12 +119,13 @@ Fixpoint wfx (x : xt) : Prop :=
       fixf pv_float0 r /\ fixs pv_unit u /\ fixs pv_fmt f /\ has_pct f = true /\ flt mx mn = false
   | XBool => True
   | XEnum _ ms => enum_add (map (fun q => (fst q, PInt (snd q))) ms) [] = Ok ms /\ ms <> []
-  | XString a b _ _ => fixz pv_int0U a /\ fixz pv_int0U b /\ (b <? a)%Z = false
+  | XString a b u t => fixz pv_int0U a /\ fixz pv_int0U b /\ (b <? a)%Z = false /\ (t = true -> a = 0%Z /\ u = false)
   | XBlob a b => fixz pv_int0 a /\ fixz pv_int0 b /\ (b <? a)%Z = false
   | XArray e a b => wfx e /\ fixz pv_int0 a /\ fixz pv_int0 b /\ (b <? a)%Z = false
   | XTuple es => es <> [] /\ (fix all (l : list xt) : Prop := match l with [] => True | e :: r => wfx e /\ all r end) es
   | XStruct ms opt _ =>
       ms <> [] /\ forallb (fun n => mem_str n (map fst ms)) opt = true /\
+      (set_neq opt (map fst ms) = true \/ opt = map fst ms) /\
       (fix all (l : list (str * xt)) : Prop := match l with [] => True | q :: r => wfx (snd q) /\ all r end) ms
   end.
 
@@ -154,6 +154,58 @@ Proof.
   vm_compute in F. discriminate F.
 Qed.
 
-Lemma scale_is_finite (s : f64) : fixf pv_scale s -> match s with B754_finite _ _ _ _ => True | _ => False end.
-Proof. destruct s as [[|]|[|]| |]; intros H; try exact I; vm_compute in H; discriminate H. Qed.
+(* never normalise a term down to a finite float (the boundedness proof inside is huge): test through booleans *)
+Definition res_float_is (t : f64 -> bool) (r : res pyval) : bool :=
+  match r with Ok (PFloat f) => t f | _ => false end.
 
+Lemma scale_is_finite (s : f64) : fixf pv_scale s -> match s with B754_finite _ _ _ _ => True | _ => False end.
+Proof.
+  intros H. destruct s as [[|]|[|]| |]; try exact I.
+  all: match type of H with fixf _ ?x =>
+         assert (E : res_float_is (fun f => fsame f x) (pv_scale (PFloat x)) = true) by (rewrite H; reflexivity) end;
+       vm_compute in E; discriminate E.
+Qed.
+
+(* evaluation of the table lookups on a concrete description (values stay symbolic) *)
+Ltac ev_lookup :=
+  repeat match goal with
+  | |- context [split_json ?j] => let t := eval vm_compute in (split_json j) in change (split_json j) with t
+  | |- context [binds_ok ?a ?b] => let t := eval vm_compute in (binds_ok a b) in change (binds_ok a b) with t
+  | |- context [arg ?a ?b ?c] => let t := eval vm_compute in (arg a b c) in change (arg a b c) with t
+  | |- context [arg_pos ?a ?b ?c] => let t := eval vm_compute in (arg_pos a b c) in change (arg_pos a b c) with t
+  | |- context [farg ?a ?b ?c] => let t := eval vm_compute in (farg a b c) in change (farg a b c) with t
+  end.
+
+Lemma leaf_bool p kw : leaf_of p $"bool" kw = Some (Ok XBool). Proof. reflexivity. Qed.
+Lemma leaf_int p kw : leaf_of p $"int" kw = Some (mk_int (arg $"int" $"min" kw) (arg $"int" $"max" kw)).
+Proof. reflexivity. Qed.
+Lemma leaf_double p kw : leaf_of p $"double" kw =
+  Some (mk_float (arg $"double" $"min" kw) (arg $"double" $"max" kw) (farg $"double" $"unit" kw) (farg $"double" $"fmtstr" kw)
+                 (farg $"double" $"absolute_resolution" kw) (farg $"double" $"relative_resolution" kw)).
+Proof. reflexivity. Qed.
+Lemma leaf_scaled p kw : leaf_of p $"scaled" kw =
+  Some (mk_scaled (arg $"scaled" $"scale" kw) (arg_pos $"scaled" $"min" kw) (arg_pos $"scaled" $"max" kw)
+                  (farg $"scaled" $"unit" kw) (farg $"scaled" $"fmtstr" kw) (farg $"scaled" $"absolute_resolution" kw)
+                  (farg $"scaled" $"relative_resolution" kw)).
+Proof. reflexivity. Qed.
+Lemma leaf_blob p kw : leaf_of p $"blob" kw = Some (mk_blob (arg $"blob" $"minbytes" kw) (arg $"blob" $"maxbytes" kw)).
+Proof. reflexivity. Qed.
+Lemma leaf_string p kw : leaf_of p $"string" kw =
+  Some (mk_string (arg $"string" $"minchars" kw) (arg $"string" $"maxchars" kw) (arg $"string" $"isUTF8" kw)).
+Proof. reflexivity. Qed.
+Lemma leaf_enum p kw : leaf_of p $"enum" kw = Some (mk_enum p (arg $"enum" $"members" kw)). Proof. reflexivity. Qed.
+Lemma leaf_array p kw : leaf_of p $"array" kw = None. Proof. reflexivity. Qed.
+Lemma leaf_tuple p kw : leaf_of p $"tuple" kw = None. Proof. reflexivity. Qed.
+Lemma leaf_struct p kw : leaf_of p $"struct" kw = None. Proof. reflexivity. Qed.
+
+Ltac start_get L := cbn [get_dt]; ev_lookup; cbn [bind negb]; rewrite L; ev_lookup; unfold some_xt.
+
+Lemma rebuild_int fuel p mn mx : wfx (XInt mn mx) ->
+  get_dt (S fuel) p (PDict [($"max", PInt mx); ($"min", PInt mn); ($"type", PStr $"int")]) = Ok (Some (XInt mn mx)).
+Proof.
+  intros (Hmn & Hmx & Hle). start_get leaf_int. unfold mk_int. cbv beta iota.
+  rewrite Hmn, Hmx. cbn [as_z bind]. rewrite Hle. reflexivity.
+Qed.
+
+Lemma rebuild_bool fuel p : get_dt (S fuel) p (PDict [($"type", PStr $"bool")]) = Ok (Some XBool).
+Proof. start_get leaf_bool. reflexivity. Qed.
